@@ -88,15 +88,32 @@ def selection(kind, spec, args, g=0):
     np.random.seed(1000 + g)
     torch.manual_seed(2000 + g)
     random.seed(3000 + g)
-    root = ClassRoot(spec["classes"], spec["C"], spec.get("bulk", "list"))
+    n = len(spec["classes"])
+    if spec.get("under") is not None and n > 0:
+        # the wrapper sits on top of other index-changing layers: what it sees (classes, positions) is the child's view.
+        # spec["classes"] describes that view; the root underneath holds the same samples in another order.
+        from kappadata.datasets import KDSubset
+        perm = [int(i) for i in np.random.default_rng([spec["under"], 3]).permutation(n)]
+        root_classes = [None] * n
+        for pos, r in enumerate(perm):
+            root_classes[r] = spec["classes"][pos]
+        root = ClassRoot(root_classes, spec["C"], spec.get("bulk", "list"))
+        base = KDSubset(KDSubset(root, list(range(n))[::-1]), [n - 1 - r for r in perm])  # two layers composing to perm
+        inv = {r: pos for pos, r in enumerate(perm)}
+    else:
+        root = ClassRoot(spec["classes"], spec["C"], spec.get("bulk", "list"))
+        base = root
+        inv = None
     try:
         with _Term(1.5):
-            w = _build(kind, root, args)
+            w = _build(kind, base, args)
     except TimeoutError:
         raise Violation(f"construction-does-not-terminate:{kind}", f"args {args} layout {spec['classes']}")
     if len(w) != len(w.indices):
         raise Violation(f"len!=indices:{kind}", "")
     sel = [w.getitem_x(i) for i in range(len(w))]
+    if inv is not None:
+        sel = [inv[j] for j in sel]
     cls = [w.getitem_class(i) for i in range(len(w))]
     if cls != [spec["classes"][j] for j in sel]:
         raise Violation(f"class-of-selected-sample-differs:{kind}", "")
@@ -380,6 +397,10 @@ def percent(n_hint=None):
 def with_layout(draw, extra, **kw):
     s = draw(layout(**kw))
     s.update(draw(extra))
+    # a third of the cases place the wrapper above two other index-changing layers
+    s["under"] = draw(st.sampled_from([None, None, 1, 2, 3]))
+    if s.get("bulk") not in ("list", "numpy", "tensor"):
+        s["under"] = None
     return s
 
 
